@@ -54,6 +54,12 @@ class Opaque:
         return hash(self.text)
 
 
+class Vec(list):
+    """a NumPy vector of known length (np.broadcast_to(x, n), np.array(tuple)): arithmetic is elementwise, unlike tuple / list"""
+    def __repr__(self):
+        return 'Vec(%s)' % list.__repr__(self)
+
+
 class Outcome:
     def __init__(self, kind, value, conds, stores, calls, env, mem):
         self.kind, self.value, self.conds, self.stores, self.calls, self.env, self.mem = kind, value, conds, stores, calls, env, mem
@@ -73,7 +79,7 @@ def is_num(v):
 
 
 class PE:
-    def __init__(self, model, atoms=None, preds=None, max_depth=4, symbolic_names=True, call_hook=None, attr_hook=None, loop_hook=None, atoms_not_none=False, default_pred=None, compare_hook=None):
+    def __init__(self, model, atoms=None, preds=None, max_depth=4, symbolic_names=True, call_hook=None, attr_hook=None, loop_hook=None, atoms_not_none=False, default_pred=None, compare_hook=None, sub_hook=None):
         self.model = model
         self.atoms = atoms or {}            # normalised text -> value (P / const)
         self.preds = preds or {}            # normalised test text -> bool
@@ -83,6 +89,8 @@ class PE:
         self.loop_hook = loop_hook          # (pe, For stmt, env) -> True if it bound the loop targets itself (generic iteration of an unknown collection)
         self.symbolic_names = symbolic_names
         self.atoms_not_none = atoms_not_none    # symbolic values stand for objects: `v is None` is False (None is passed explicitly where wanted)
+        self.sub_hook = sub_hook                # (pe, node, base value, evaluated index) -> value or NotImplemented (subscript of a symbolic object)
+        self.user = {}                          # per-path scratch for hooks (reset at the start of every path, copied to Outcome.user)
         self.compare_hook = compare_hook        # (pe, op, left value, right value) -> value or NotImplemented (elementwise comparisons that are data, not decisions)
         self.default_pred = default_pred        # test text -> bool | None, consulted before forking
 
@@ -95,10 +103,14 @@ class PE:
             dec = work.pop()
             self.decisions, self.cursor = dec, 0
             self.conds, self.stores, self.calls, self.mem, self.trace = [], [], [], {}, []
+            self.subloads, self.substores = [], []
+            self.user = {}
             try:
                 kind, val, env = self._run(func, dict(args or {}), body, 0)
                 out.append(Outcome(kind, val, list(self.conds), list(self.stores), list(self.calls), env, dict(self.mem)))
                 out[-1].trace = list(self.trace)
+                out[-1].subloads, out[-1].substores = list(self.subloads), list(self.substores)
+                out[-1].user = self.user
             except NeedDecision:
                 work.append(dec + [False])
                 work.append(dec + [True])
@@ -262,11 +274,55 @@ class PE:
                     tgt = e.value if isinstance(e, ast.Starred) else e
                     self.assign(tgt, Opaque('%s[%d]' % (getattr(v, 'text', norm(stmt.value) if hasattr(stmt, 'value') and stmt.value is not None else '?'), i)), env, func, depth, stmt)
         elif isinstance(t, (ast.Attribute, ast.Subscript)):
+            if isinstance(t, ast.Subscript):
+                idx = self.index_value(t.slice, env, func, depth)
+                base = self.expr(t.value, env, func, depth) if isinstance(t.value, ast.Name) and isinstance(env.get(t.value.id), (list, Vec)) else None
+                if base is not None:
+                    # in-place update of a known list / vector held in a local
+                    new = self.update_seq(base, idx, v)
+                    if new is not None:
+                        env[t.value.id] = new
+                        return
+                self.substores.append((self.loc_text(t.value, env, func, depth), idx, v, stmt))
             key = self.loc_text(t, env, func, depth)
             self.mem[key] = v
             self.stores.append((key, v, stmt))
         elif isinstance(t, ast.Starred):
             self.assign(t.value, v, env, func, depth, stmt)
+
+    def update_seq(self, base, idx, v):
+        n = len(base)
+        if isinstance(idx, int) and not isinstance(idx, bool) and -n <= idx < n:
+            new = type(base)(base)
+            new[idx] = v
+            return new
+        if isinstance(idx, tuple) and idx and idx[0] == 'slice' and all(x is None or isinstance(x, int) for x in idx[1:]):
+            pos = list(range(n))[slice(idx[1], idx[2], idx[3])]
+            if isinstance(v, (list, tuple)) and len(v) == len(pos):
+                new = type(base)(base)
+                for k, x in zip(pos, v):
+                    new[k] = x
+                return new
+        return None
+
+    # ------------------------------------------------------------------------------------------------ indices
+    def index_value(self, sl, env, func, depth):
+        """evaluated subscript: a Slice becomes ('slice', lo, hi, step); a tuple index becomes a tuple of evaluated components (starred parts expanded)"""
+        if isinstance(sl, ast.Slice):
+            return ('slice',) + tuple(self.expr(b, env, func, depth) if b is not None else None for b in (sl.lower, sl.upper, sl.step))
+        if isinstance(sl, ast.Tuple):
+            out = []
+            for x in sl.elts:
+                if isinstance(x, ast.Starred):
+                    v = self.expr(x.value, env, func, depth)
+                    if isinstance(v, (list, tuple)):
+                        out.extend(v)
+                    else:
+                        out.append(Opaque('*' + norm(x.value)))
+                else:
+                    out.append(self.index_value(x, env, func, depth))
+            return tuple(out)
+        return self.expr(sl, env, func, depth)
 
     # ------------------------------------------------------------------------------------------------ locations
     def loc_text(self, e, env, func, depth):
@@ -291,6 +347,8 @@ class PE:
             v = env.get(e.id)
             if isinstance(v, Opaque) and v.text.startswith('@'):
                 return v.text[1:]
+            if isinstance(getattr(v, 'loc_text', None), str):
+                return v.loc_text           # a symbolic object that names itself (e.g. a symbolic array after np.pad)
             if isinstance(v, P) and len(v.t) == 1:
                 (m, c), = v.t.items()
                 if c == 1 and len(m) == 1 and m[0][1] == 1:
@@ -471,13 +529,25 @@ class PE:
                 hi = self.expr(e.slice.upper, env, func, depth) if e.slice.upper is not None else None
                 if (lo is None or isinstance(lo, int)) and (hi is None or isinstance(hi, int)) and e.slice.step is None:
                     return base[lo:hi]
+        if isinstance(e, ast.Subscript):
+            base = self.expr(e.value, env, func, depth)
+            idx = self.index_value(e.slice, env, func, depth)
+            if isinstance(base, (list, tuple)) and isinstance(idx, tuple) and idx and idx[0] == 'slice' and all(x is None or isinstance(x, int) for x in idx[1:]):
+                r = base[slice(idx[1], idx[2], idx[3])]
+                return r
+            if not isinstance(base, (list, tuple, dict, str)):
+                self.subloads.append((self.loc_text(e.value, env, func, depth), idx, e, base))
+                if self.sub_hook is not None:
+                    r = self.sub_hook(self, e, base, idx)
+                    if r is not NotImplemented:
+                        return r
         key = self.loc_text(e, env, func, depth)
         if key in self.mem:
             return self.mem[key]
         if key in self.atoms:
             return self.atoms[key]
         t = norm(e)
-        if t in self.atoms:
+        if t in self.atoms and not self._rebound(e, env):
             return self.atoms[t]
         if self.attr_hook is not None:
             r = self.attr_hook(self, e, key, env, func, depth)
@@ -485,7 +555,20 @@ class PE:
                 return r
         return P.atom(key)
 
+    def _rebound(self, e, env):
+        """the root name of location e no longer denotes the symbolic object its text names (it was re-assigned to a value that names itself)"""
+        while isinstance(e, (ast.Attribute, ast.Subscript)):
+            e = e.value
+        return isinstance(e, ast.Name) and isinstance(getattr(env.get(e.id), 'loc_text', None), str)
+
     def binop(self, op, l, r, node):
+        if isinstance(l, Vec) or isinstance(r, Vec):
+            n = len(l) if isinstance(l, (list, tuple)) else len(r)
+            ls = list(l) if isinstance(l, (list, tuple)) else [l] * n
+            rs = list(r) if isinstance(r, (list, tuple)) else [r] * n
+            if len(ls) == len(rs):
+                return Vec(self.binop(op, a, b, node) for a, b in zip(ls, rs))
+            raise Raised('ValueError(broadcast)')
         if isinstance(l, (list, tuple)) and isinstance(r, (list, tuple)) and isinstance(op, ast.Add):
             return type(l)(list(l) + list(r)) if isinstance(l, tuple) else list(l) + list(r)
         if isinstance(l, (list, tuple)) and isinstance(r, int) and isinstance(op, ast.Mult):
@@ -613,6 +696,8 @@ class PE:
                     return list(recv).count(args[0])
             if m in ('item', 'copy', 'astype', 'tolist') and name is None or (m in ('item', 'copy', 'astype') and not (name or '').startswith(('numpy.', 'math.'))):
                 recv = self.expr(recv_node, env, func, depth)
+                if m == 'item' and isinstance(recv, Vec) and len(recv) == 1:
+                    return recv[0]
                 if isinstance(recv, (P, int, float, list, tuple)):
                     return recv
             if m in ('get',) :
@@ -626,6 +711,8 @@ class PE:
                 if isinstance(recv, dict):
                     return {'items': list(recv.items()), 'keys': list(recv.keys()), 'values': list(recv.values())}[m]
         n = name or ''
+        if n in ('numpy.array', 'numpy.asarray') and args and isinstance(args[0], (list, tuple)) and all(is_num(x) or isinstance(x, P) for x in args[0]):
+            return Vec(args[0])
         if n in ('float', 'builtins.float', 'numpy.float32', 'numpy.float64', 'numpy.array', 'numpy.asarray') and args:
             return args[0]
         if n in ('int', 'builtins.int') and args:
@@ -666,6 +753,9 @@ class PE:
                 if all(x in py for x in names):
                     return isinstance(v, tuple(py[x] for x in names))
             return self.decide(self.test_text(e, env, func, depth))
+        if n in ('numpy.sqrt', 'numpy.floor') and args and isinstance(args[0], Vec):
+            fn = p_sqrt if n.endswith('sqrt') else p_floor
+            return Vec(fn(as_p(x)) if (is_num(x) or isinstance(x, P)) else Opaque('%s(%s)' % (n, x)) for x in args[0])
         if n in ('numpy.sqrt', 'math.sqrt') and args and (is_num(args[0]) or isinstance(args[0], P)):
             return p_sqrt(as_p(args[0]))
         if n in ('numpy.floor', 'math.floor') and args and (is_num(args[0]) or isinstance(args[0], P)):
@@ -676,20 +766,38 @@ class PE:
                 for x in args[0]:
                     r = r * as_p(x)
                 return r
+            if is_num(args[0]) or (isinstance(args[0], P) and len(args[0].t) > 1):
+                return args[0]              # a computed scalar (a bare atom may stand for a tuple such as shape[2:])
             return P.atom('prod(%s)' % (self.loc_text(e.args[0], env, func, depth) if isinstance(e.args[0], (ast.Name, ast.Attribute, ast.Subscript)) else norm(e.args[0])))
+        if n in ('slice', 'builtins.slice') and 1 <= len(args) <= 3:
+            a3 = [None, args[0], None] if len(args) == 1 else (list(args) + [None])[:3]
+            return ('slice', a3[0], a3[1], a3[2])
+        if n == 'numpy.cumprod' and len(args) == 1 and isinstance(args[0], (list, tuple)) and all(is_num(x) or isinstance(x, P) for x in args[0]):
+            out, acc = [], P.const(1)
+            for x in args[0]:
+                acc = acc * as_p(x)
+                out.append(acc)
+            return Vec(out)
+        if n in ('sum', 'builtins.sum') and len(args) == 1 and isinstance(args[0], (list, tuple)) and all(is_num(x) or isinstance(x, P) for x in args[0]):
+            acc = P.const(0)
+            for x in args[0]:
+                acc = acc + as_p(x)
+            return acc
         if n == 'numpy.broadcast_to' and len(args) == 2 and isinstance(args[1], int):
             v = args[0]
             if isinstance(v, (list, tuple)):
-                return tuple(v)
+                if len(v) != args[1]:
+                    raise Raised('ValueError(broadcast_to)')
+                return Vec(v)
             if is_num(v):
-                return tuple([v] * args[1])
+                return Vec([v] * args[1])
             if isinstance(v, P):
                 # an int-or-tuple geometry argument: per-axis atoms  name[0], name[1], ...
                 if len(v.t) == 1:
                     (m, c), = v.t.items()
                     if c == 1 and len(m) == 1 and m[0][1] == 1:
-                        return tuple(P.atom('%s[%d]' % (m[0][0], i)) for i in range(args[1]))
-                return tuple([v] * args[1])
+                        return Vec(self.atoms.get('%s[%d]' % (m[0][0], i), P.atom('%s[%d]' % (m[0][0], i))) for i in range(args[1]))
+                return Vec([v] * args[1])
         if n in ('abs', 'builtins.abs', 'max', 'min', 'builtins.max', 'builtins.min') and args and all(is_num(a) for a in args):
             return {'abs': abs, 'max': max, 'min': min}[n.split('.')[-1]](*args)
         # repository function: inline
